@@ -91,7 +91,7 @@ def _judge(ctx, lines):
         if not ln.strip():
             continue
         e = json.loads(ln)
-        if e["ev"] == "pair":      # composite answers for the latest height: judged by TLC in the common run (PairVerdict)
+        if e["ev"] in ("pair", "status"):      # composite answers for the latest height, pushed blocks: judged by TLC in the common run (PairVerdict, StatusVerdict)
             rest.append(ln)
             continue
         if e["ev"] != "begin" and _candidate(e):
